@@ -311,6 +311,7 @@ pub fn make_body(mark: &str, len: usize) -> Vec<u8> {
 }
 
 pub struct ConsumerSlot {
+    pub chan_slot: usize,
     pub tag: String,
     pub consumer: Option<Consumer<'static>>,
     pub rx: Receiver<ConsumerMessage>,
@@ -439,7 +440,21 @@ pub fn drain_receiver(
 impl WorkerCtx {
     pub fn exec(&mut self, slot: usize, idx: usize, op: &Op, mark: &str) -> OpResult {
         if self.chans[slot].closed {
-            return OpResult::Skipped;
+            // only draining a consumer queue makes sense without the channel
+            match op {
+                Op::Drain { slot: cs, max, .. } if *cs < self.consumers.len() && !self.chans[slot].ptr.is_null() => {
+                    let rx = self.consumers[*cs].rx.clone();
+                    let (msgs, terminals, disconnected, after_terminal) = drain_receiver(&rx, *max, |_, _| {});
+                    return OpResult::Drained { msgs, terminals, disconnected, after_terminal };
+                }
+                Op::Consume { .. } => {
+                    // keep consumer slots aligned with the plan
+                    let (_tx, rx) = crossbeam_channel::unbounded();
+                    self.consumers.push(ConsumerSlot { chan_slot: slot, tag: String::new(), consumer: None, rx, kept: Vec::new() });
+                    return OpResult::Skipped;
+                }
+                _ => return OpResult::Skipped,
+            }
         }
         let ch: &'static Channel = self.chans[slot].chan();
         match op {
@@ -662,16 +677,23 @@ impl WorkerCtx {
                     Ok(c) => {
                         let tag = c.consumer_tag().to_string();
                         let rx = c.receiver().clone();
-                        self.consumers.push(ConsumerSlot { tag: tag.clone(), consumer: Some(c), rx, kept: Vec::new() });
+                        self.consumers.push(ConsumerSlot { chan_slot: slot, tag: tag.clone(), consumer: Some(c), rx, kept: Vec::new() });
                         OpResult::Consumer { tag }
                     }
                     Err(e) => {
+                        // keep consumer slots aligned with the plan
+                        let (_tx, rx) = crossbeam_channel::unbounded();
+                        self.consumers.push(ConsumerSlot { chan_slot: slot, tag: String::new(), consumer: None, rx, kept: Vec::new() });
                         OpResult::Err(err_string(&e))
                     }
                 }
             }
             Op::Drain { slot: cs, max, acks, via_consumer } => {
-                if *cs >= self.consumers.len() {
+                if *cs >= self.consumers.len() || self.consumers[*cs].tag.is_empty() {
+                    return OpResult::Skipped;
+                }
+                if self.consumers[*cs].chan_slot != slot {
+                    // acks would go through a foreign channel: plan error, do not do it
                     return OpResult::Skipped;
                 }
                 let rx = self.consumers[*cs].rx.clone();
@@ -804,10 +826,21 @@ impl WorkerCtx {
                     Ok(r) => unit(r),
                 }
             }
-            Op::CloseChannel => match self.chans[slot].take() {
-                Some(c) => unit(c.close()),
-                None => OpResult::Skipped,
-            },
+            Op::CloseChannel => {
+                // a Consumer borrows its channel: anything still alive on this one is forgotten
+                // (what safe user code would have to do to be allowed to close the channel)
+                for c in self.consumers.iter_mut() {
+                    if c.chan_slot == slot {
+                        if let Some(x) = c.consumer.take() {
+                            std::mem::forget(x);
+                        }
+                    }
+                }
+                match self.chans[slot].take() {
+                    Some(c) => unit(c.close()),
+                    None => OpResult::Skipped,
+                }
+            }
             Op::Yield => {
                 simrt::yield_point("client.yield");
                 OpResult::Unit
